@@ -57,13 +57,22 @@ func runSolverCtx(parent context.Context, sp solverSpec, timeoutS, seed int, fil
 	_ = cmd.Run()
 	ms = time.Since(start).Milliseconds()
 	out = buf.String()
-	first := strings.TrimSpace(strings.SplitN(out, "\n", 2)[0])
+	// the answer is the first line that is not a warning
+	first := ""
+	for _, l := range strings.Split(out, "\n") {
+		l = strings.TrimSpace(l)
+		if l == "" || strings.HasPrefix(l, "WARNING") {
+			continue
+		}
+		first = l
+		break
+	}
 	switch first {
 	case "unsat", "sat":
 		return first, out, ms
 	}
-	if strings.Contains(out, "\nunsat") && !strings.Contains(out, "error") {
-		return "unsat", out, ms
+	if strings.HasPrefix(first, "(error") {
+		return "unknown", "solver rejected the query: " + first, ms
 	}
 	return "unknown", out, ms
 }
